@@ -299,6 +299,20 @@ pub fn standard_roots(w: &World, s0: &Store, with_forged: bool) -> Vec<(String, 
     roots
 }
 
+/// RK: bank 0 as a bankruptcy wipe-out leaves it (forged on top of R1): deposit share value 0, killed. Its
+/// lenders hold worthless shares, u1 still owes it.
+pub fn killed_root(w: &World, s0: &Store) -> Vec<(String, HState)> {
+    let nb = w.banks.len();
+    let std = standard_roots(w, s0, false);
+    let Some((_, r1)) = std.iter().find(|(k, _)| k == "R1") else { return vec![] };
+    let mut s = r1.s.clone();
+    edit_bank(&mut s, &w.banks[0].key, |b| {
+        b.asset_share_value = I80F48::ZERO.into();
+        b.config.operational_state = marginfi_type_crate::types::BankOperationalState::KilledByBankruptcy;
+    });
+    vec![("RK".to_string(), HState { s, clock_devs: 0, price_devs: 0, closes: vec![0; nb], forged: true })]
+}
+
 /// roots with a bank in token-less repayment mode (the risk admin's write-off machinery)
 pub fn tokenless_roots(w: &World, s0: &Store) -> Vec<(String, HState)> {
     use marginfi_type_crate::types::BankConfigOpt;
